@@ -204,6 +204,25 @@ ManyCtrOk(e) ==
           /\ HighZero(e.lines[i][1], e.k) /\ d \in kinds /\ e.lines[i][2] = total(d)
      /\ \A i, j \in 1..Len(e.lines) : i # j => e.lines[i][1] # e.lines[j][1]
 
+\* ---- provided Iterator methods on a partially consumed iterator (count, last, nth after `skip` calls of next): they must
+\* agree with the item list that next() yields
+IterApiOk(e) ==
+  LET cls == Classes(e.bytes)
+      items == IF e.kind = "kmer"
+               THEN LET ws == Windows(cls, e.k) IN [i \in 1..Len(ws) |-> <<ws[i][1], ws[i][2]>>]
+               ELSE RunsWM(cls, e.w, e.m)
+      n == Len(items)
+      rest == IF e.skip >= n THEN 0 ELSE n - e.skip
+      Shown(x, i) ==        \* the logged item is item i of the list
+        IF e.kind = "kmer"
+        THEN /\ Len(x) = 2 /\ HighZero(x[1], e.k) /\ HighZero(x[2], e.k)
+             /\ LowDigits(x[1], e.k) = items[i][1] /\ LowDigits(x[2], e.k) = items[i][2]
+        ELSE /\ Len(x) = 3 /\ HighZero(x[1], e.m) /\ LowDigits(x[1], e.m) = items[i][1]
+             /\ x[2] = items[i][2] /\ x[3] = items[i][3]
+  IN /\ e.count = rest
+     /\ IF rest = 0 THEN e.last = <<>> ELSE Shown(e.last, n)
+     /\ IF e.nth >= rest THEN e.nthitem = <<>> ELSE Shown(e.nthitem, e.skip + e.nth + 1)
+
 EventOk ==
   l > 1 =>
     LET e == Rec[l - 1] IN
@@ -222,6 +241,7 @@ EventOk ==
       [] e.ev = "ctrstress" -> CtrStressOk(e)
       [] e.ev = "ctrbig" -> CtrBigOk(e)
       [] e.ev = "covbig" -> CovBigOk(e)
+      [] e.ev = "iterapi" -> IterApiOk(e)
       [] e.ev = "manyo"  -> ManyOligoOk(e)
       [] e.ev = "manymin" -> ManyMinOk(e)
       [] e.ev = "manyctr" -> ManyCtrOk(e)
